@@ -396,7 +396,7 @@ func decodeSpans(rss []*tracepb.ResourceSpans) []item {
 				it.add("resource", res)
 				it.add("scope", scope)
 				it.add("trace_id", hex.EncodeToString(sp.GetTraceId()))
-				it.add("parent_span_id", hex.EncodeToString(sp.GetParentSpanId()))
+				it.add("parent_span_id", zeroIsAbsent(sp.GetParentSpanId())) // an all-zero ID is invalid = no parent
 				it.add("parent_remote", pbRemote(sp.GetFlags()))
 				it.add("name", "%q", sp.GetName())
 				it.add("kind", pbKind(sp.GetKind()))
